@@ -1,0 +1,39 @@
+//go:build verif
+
+package cache
+
+import "github.com/jonboulle/clockwork"
+
+// Verification hooks for property C31 (decision cache). Export-only: no behaviour lives here.
+
+// VerifC31Dropped returns the dropped-trace filter of a cuckooSentCache.
+func VerifC31Dropped(c TraceSentCache) *CuckooTraceChecker {
+	return c.(*cuckooSentCache).dropped
+}
+
+// VerifC31SetRecentClock replaces the clock of the recent-drop set (a public field of SetWithTTL).
+func VerifC31SetRecentClock(c TraceSentCache, clk clockwork.Clock) {
+	c.(*cuckooSentCache).recentDroppedIDs.Clock = clk
+}
+
+// VerifC31Lock / VerifC31Unlock expose the filter mutex so a driver can hold back the drain goroutine.
+func (c *CuckooTraceChecker) VerifC31Lock()   { c.mut.Lock() }
+func (c *CuckooTraceChecker) VerifC31Unlock() { c.mut.Unlock() }
+
+// VerifC31QueueLen is len(addch).
+func (c *CuckooTraceChecker) VerifC31QueueLen() int { return len(c.addch) }
+
+// VerifC31State reports insert counters and slot counts of both generations and the next capacity.
+func (c *CuckooTraceChecker) VerifC31State() (curCount, curSlots uint, hasFut bool, futCount, futSlots, capacity uint) {
+	c.mut.RLock()
+	defer c.mut.RUnlock()
+	curCount = c.current.Count()
+	curSlots = uint(len(c.current.Encode()) / 2)
+	if c.future != nil {
+		hasFut = true
+		futCount = c.future.Count()
+		futSlots = uint(len(c.future.Encode()) / 2)
+	}
+	capacity = c.capacity
+	return
+}
